@@ -36,6 +36,9 @@ type FuncFacts struct {
 	reachCache map[[2]*ssa.BasicBlock]map[*ssa.BasicBlock]bool
 	mustCache  map[*ssa.BasicBlock][]Atom
 	whole      *Loop
+	callOrd    map[*ssa.Call]int
+	callGroups map[string][]*ssa.Call
+	inOrdinal  map[*ssa.Call]bool
 }
 
 // Atom is one condition that holds at a program point.
@@ -158,6 +161,19 @@ func (ff *FuncFacts) findInduction() {
 				}
 			}
 			if !okShape || step == nil || init == nil {
+				continue
+			}
+			// only the variable that controls the loop (appears in the header's
+			// condition) is an induction variable; other counters are accumulators
+			if iff := ifOf(lp.Header); iff != nil {
+				if cb, ok := iff.Cond.(*ssa.BinOp); ok {
+					if cb.X != ssa.Value(phi) && cb.X != ssa.Value(step) && cb.Y != ssa.Value(phi) && cb.Y != ssa.Value(step) {
+						continue
+					}
+				} else {
+					continue
+				}
+			} else {
 				continue
 			}
 			name := loopVarName(lp.Depth)
